@@ -46,12 +46,15 @@ extern unsigned vp_uf_bashf_calls;
 #endif
 #ifdef KC_PRE
 extern unsigned vp_pre_calls;      /* precondition-checking stubs of the low-level FMT functions (fmt_pre.c) */
+extern unsigned vp_pre_violated;
 #else
 #define vp_pre_calls 0u
+#define vp_pre_violated 0u
 #endif
 #define KCALLS() (vp_uf_block_calls + vp_uf_bashf_calls + vp_pre_calls)
 #else
 #define KCALLS() 0
+#define vp_pre_violated 0u
 #endif
 
 #define BADLEN(x) ((x) != 16 && (x) != 24 && (x) != 32)
@@ -73,9 +76,14 @@ enum {
 	DWP_W_OVL, CHE_W_OVL, BRNG_HMAC_OVL
 };
 
+/* count > 600 needs genuinely valid [2 * count] buffers: count ranges over (600, MAXC] */
+#define MAXC 1024
+static octet vp_big_dest[2 * MAXC], vp_big_src[2 * MAXC];
+
 static void vp_body(struct vp_in* pin, int which)
 {
 #define in (*pin)
+	size_t probe = 0;
 	octet dest[DCAP];
 	octet out2[32];
 	err_t ret = ERR_OK, exp = ERR_BAD_INPUT;
@@ -162,9 +170,10 @@ static void vp_body(struct vp_in* pin, int which)
 		ret = beltFMTEncr((u16*)dest, in.mod, (const u16*)in.src, in.count, in.key, in.len, in.iv); break;
 	case FMT_E_LEN: VP_ASSUME(2 <= in.mod && in.mod <= 65536 && 2 <= in.count && in.count <= CAP / 2 && BADLEN(in.len));
 		ret = beltFMTEncr((u16*)dest, in.mod, (const u16*)in.src, in.count, in.key, in.len, in.iv); break;
-	case FMT_E_COUNTHI: VP_ASSUME(2 <= in.mod && in.mod <= 65536 && in.count > 600 && OKLEN(in.len));
+	case FMT_E_COUNTHI: VP_ASSUME(2 <= in.mod && in.mod <= 65536 && in.count > 600 && in.count <= MAXC && OKLEN(in.len));
 		exp = ERR_NOT_IMPLEMENTED;
-		ret = beltFMTEncr((u16*)dest, in.mod, (const u16*)in.src, in.count, in.key, in.len, in.iv); break;
+		VP_ASSUME(in.off < 2 * MAXC); probe = in.off; vp_big_dest[probe] = in.pat[0];   /* any octet of the big dest */
+		ret = beltFMTEncr((u16*)vp_big_dest, in.mod, (const u16*)vp_big_src, in.count, in.key, in.len, in.iv); break;
 	case FMT_E_IVOVL: VP_ASSUME(2 <= in.mod && in.mod <= 65536 && 8 <= in.count && in.count <= CAP / 2 && OKLEN(in.len));
 		VP_ASSUME(in.off < 2 * in.count);   /* iv starts inside [2*count]dest (same object, DCAP >= CAP + 16) */
 		ret = beltFMTEncr((u16*)dest, in.mod, (const u16*)in.src, in.count, in.key, in.len, dest + in.off); break;
@@ -176,9 +185,10 @@ static void vp_body(struct vp_in* pin, int which)
 		ret = beltFMTDecr((u16*)dest, in.mod, (const u16*)in.src, in.count, in.key, in.len, in.iv); break;
 	case FMT_D_LEN: VP_ASSUME(2 <= in.mod && in.mod <= 65536 && 2 <= in.count && in.count <= CAP / 2 && BADLEN(in.len));
 		ret = beltFMTDecr((u16*)dest, in.mod, (const u16*)in.src, in.count, in.key, in.len, in.iv); break;
-	case FMT_D_COUNTHI: VP_ASSUME(2 <= in.mod && in.mod <= 65536 && in.count > 600 && OKLEN(in.len));
+	case FMT_D_COUNTHI: VP_ASSUME(2 <= in.mod && in.mod <= 65536 && in.count > 600 && in.count <= MAXC && OKLEN(in.len));
 		exp = ERR_NOT_IMPLEMENTED;
-		ret = beltFMTDecr((u16*)dest, in.mod, (const u16*)in.src, in.count, in.key, in.len, in.iv); break;
+		VP_ASSUME(in.off < 2 * MAXC); probe = in.off; vp_big_dest[probe] = in.pat[0];   /* any octet of the big dest */
+		ret = beltFMTDecr((u16*)vp_big_dest, in.mod, (const u16*)vp_big_src, in.count, in.key, in.len, in.iv); break;
 	case FMT_D_IVOVL: VP_ASSUME(2 <= in.mod && in.mod <= 65536 && 8 <= in.count && in.count <= CAP / 2 && OKLEN(in.len));
 		VP_ASSUME(in.off < 2 * in.count);
 		ret = beltFMTDecr((u16*)dest, in.mod, (const u16*)in.src, in.count, in.key, in.len, dest + in.off); break;
@@ -228,9 +238,12 @@ static void vp_body(struct vp_in* pin, int which)
 	default: VP_ASSUME(0);
 	}
 	VP_WITNESS();
+	VP_ASSERT((vp_pre_violated & 1) == 0, "low-level FMT functions called within their precondition 2 <= mod <= 65536");
+	VP_ASSERT((vp_pre_violated & 6) == 0, "low-level FMT functions called within their preconditions on count and len");
 	VP_ASSERT(ret != ERR_OK, "bad argument: an error is returned");
 	VP_ASSERT(ret == exp, "bad argument: the error class named in the header is returned");
 	VP_ASSERT(vp_eq(dest, in.pat, DCAP) && vp_eq(out2, in.pat2, 32), "bad argument: outputs untouched");
+	VP_ASSERT(vp_big_dest[probe] == (which == FMT_E_COUNTHI || which == FMT_D_COUNTHI ? in.pat[0] : 0), "bad argument: outputs untouched (large buffer)");
 	VP_ASSERT(KCALLS() == 0, "bad argument: no cipher/hash kernel or low-level step evaluated");
 #undef in
 }
